@@ -20,6 +20,14 @@ CLAIMED = {
          "Effect/escape analysis: for each of ~90 observers the transitive tree/rank write effect on parameter-rooted objects must be empty; for each of 30 value-returning operations every write must hit fresh/deep-copied objects, the result must be fresh and hold nothing rooted at an operand; copy hooks and default hand-out checked structurally. Sound for all inputs up to the stated typing over-approximation (unresolved receivers are reported as ANALYSIS-ERROR when they decide a verdict).",
          "Trusts: receiver typing tables (validated each run), opaque user callbacks excluded, pickle round trip is a deep copy, flow-insensitive field abstraction ('sub' roots tagged by first-level field).",
          "DESIGN.md section 3, C10"),
+ "C03": ("effect summaries (reads are effect-free), alias summaries (reference is an element of the payload list), CFG exit analysis (in-place operators return self)",
+         "Structural clauses of point access: read accessors have an empty tree/rank write effect transitively; getPayloadRef/_create_payload return the stored element, never a copy or an un-inserted default; tensor wrappers delegate unchanged and return the rank-0 box itself; every __i*__ method returns self on every normal path. Does not decide last-write-wins over histories, prefix reads or start_pos equivalence (runtime values).",
+         "Trusts: the effect engine's typing tables; Fiber._saved_* statistics are not tree state.",
+         "DESIGN.md section 3, C03"),
+ "C11": ("operator-slot conformance tables checked by def-use over the AST; dunder-name exhaustiveness; sibling cross-check Payload vs CoordPayload; Fiber arithmetic forms matched to their co-iteration",
+         "For each of ~40 operator slots of Payload and CoordPayload the computed expression, operand order, both operand kinds, result kind and (for in-place forms) the store into the same box are checked against the canonical table; dead (Python 2) slots and missing reflected/in-place siblings are reported; Fiber +,*,+=,*= forms must iterate the union / intersection / shape / stored elements their definition names. Decides all inputs for boxes and elements; fiber-level numeric results are not decided.",
+         "Trusts: Python's operator dispatch rules; int/float arithmetic of the boxed values.",
+         "DESIGN.md section 3, C11"),
 }
 
 NOT_APPLICABLE = {
